@@ -175,6 +175,9 @@ func (g *gen) mutexCall(e ast.Expr) (kind, name string, ok bool) {
 	return "", "", false
 }
 
+// name of the package-level context key WithContext stores the id under (found by role)
+var loggerCidKey = "cidKey"
+
 func (g *gen) loggerWithContext(fd *ast.FuncDecl) ([]skelEv, bool, string) {
 	var evs, deferred []skelEv
 	regLocals := map[types.Object]bool{} // locals currently holding reg
@@ -263,8 +266,11 @@ func (g *gen) loggerWithContext(fd *ast.FuncDecl) ([]skelEv, bool, string) {
 			if !ok || len(ce.Args) != 3 {
 				return nil, false, "return is not context.WithValue(..)"
 			}
-			if k, ok := g.pkgVar(ce.Args[1]); !ok || k.Name() != "cidKey" {
-				return nil, false, "context key is not cidKey"
+			// the context key: a package-level variable, whatever its name; AliasContext must use the same one
+			if k, ok := g.pkgVar(ce.Args[1]); !ok {
+				return nil, false, "context key is not a package-level variable"
+			} else {
+				loggerCidKey = k.Name()
 			}
 			val := g.stripConv(g.inlineNullary(g.stripConv(ce.Args[2])))
 			if n, ok := g.atomicAddOne(val); ok && setCounter(n) {
@@ -297,10 +303,70 @@ func (g *gen) loggerAliasContext(fd *ast.FuncDecl) ([]skelEv, bool, string) {
 			names = append(names, n.Name)
 		}
 	}
-	if len(names) != 2 || len(fd.Body.List) != 2 {
+	if len(names) != 2 {
 		return nil, false, "shape"
 	}
 	parent, source := names[0], names[1]
+	key := loggerCidKey
+	okEvs := []skelEv{{"source_cid", "ret_source_cid"}, {"no_source_cid", "call_WithContext"}}
+	if len(fd.Body.List) == 4 {
+		// flat form:  if source == nil { return WithContext(parent) };  cid, ok := <id of source>;
+		//             if !ok { return WithContext(parent) };  return context.WithValue(parent, key, cid)
+		sx := func(n ast.Node) string {
+			if e, ok := n.(ast.Expr); ok {
+				return types.ExprString(e)
+			}
+			return ""
+		}
+		retWC := func(b *ast.BlockStmt) bool {
+			if len(b.List) != 1 {
+				return false
+			}
+			r, ok := b.List[0].(*ast.ReturnStmt)
+			return ok && len(r.Results) == 1 && sx(r.Results[0]) == "WithContext("+parent+")"
+		}
+		i0, ok0 := fd.Body.List[0].(*ast.IfStmt)
+		as, ok1 := fd.Body.List[1].(*ast.AssignStmt)
+		i2, ok2 := fd.Body.List[2].(*ast.IfStmt)
+		r3, ok3 := fd.Body.List[3].(*ast.ReturnStmt)
+		if !(ok0 && ok1 && ok2 && ok3) || i0.Init != nil || i0.Else != nil || sx(i0.Cond) != source+" == nil" || !retWC(i0.Body) ||
+			len(as.Lhs) != 2 || len(as.Rhs) != 1 || i2.Init != nil || i2.Else != nil || sx(i2.Cond) != "!"+sx(as.Lhs[1]) || !retWC(i2.Body) ||
+			len(r3.Results) != 1 || sx(r3.Results[0]) != "context.WithValue("+parent+", "+key+", "+sx(as.Lhs[0])+")" {
+			return nil, false, "flat shape"
+		}
+		rhs := sx(as.Rhs[0])
+		if rhs == source+".Value("+key+").(int)" {
+			return okEvs, true, ""
+		}
+		// a one-parameter helper of this package that reads <param>.Value(key).(int)
+		if ce, ok := as.Rhs[0].(*ast.CallExpr); ok && len(ce.Args) == 1 && sx(ce.Args[0]) == source {
+			if id, ok := ce.Fun.(*ast.Ident); ok {
+				for _, hd := range g.funcDecls() {
+					if hd.Recv == nil && hd.Name.Name == id.Name && len(hd.Type.Params.List) == 1 && len(hd.Type.Params.List[0].Names) == 1 {
+						pn := hd.Type.Params.List[0].Names[0].Name
+						found, other := false, false
+						ast.Inspect(hd.Body, func(n ast.Node) bool {
+							if ta, ok := n.(*ast.TypeAssertExpr); ok {
+								if sx(ta) == pn+".Value("+key+").(int)" {
+									found = true
+								} else {
+									other = true
+								}
+							}
+							return true
+						})
+						if found && !other && len(hd.Body.List) <= 2 {
+							return okEvs, true, ""
+						}
+					}
+				}
+			}
+		}
+		return nil, false, "flat shape: id of the source not recognised"
+	}
+	if len(fd.Body.List) != 2 {
+		return nil, false, "shape"
+	}
 	str := func(n ast.Node) string {
 		switch x := n.(type) {
 		case ast.Expr:
@@ -318,11 +384,11 @@ func (g *gen) loggerAliasContext(fd *ast.FuncDecl) ([]skelEv, bool, string) {
 	}
 	as, ok := in.Init.(*ast.AssignStmt)
 	if !ok || as.Tok != token.DEFINE || len(as.Lhs) != 2 || len(as.Rhs) != 1 ||
-		str(as.Rhs[0]) != source+".Value(cidKey).(int)" || str(in.Cond) != str(as.Lhs[1]) {
+		str(as.Rhs[0]) != source+".Value("+key+").(int)" || str(in.Cond) != str(as.Lhs[1]) {
 		return nil, false, "inner if init/cond"
 	}
 	ret, ok := in.Body.List[0].(*ast.ReturnStmt)
-	if !ok || len(ret.Results) != 1 || str(ret.Results[0]) != "context.WithValue("+parent+", cidKey, "+str(as.Lhs[0])+")" {
+	if !ok || len(ret.Results) != 1 || str(ret.Results[0]) != "context.WithValue("+parent+", "+key+", "+str(as.Lhs[0])+")" {
 		return nil, false, "inner return"
 	}
 	ret2, ok := fd.Body.List[1].(*ast.ReturnStmt)
@@ -339,15 +405,19 @@ func init() {
 		}
 		g.pf("(* synchronisation skeletons (gen_skel.go) *)\n")
 		seen := map[string]bool{}
+		// WithContext first (it determines the context key), in whichever file it lives
+		for _, fd := range g.funcDecls() {
+			if fd.Recv == nil && fd.Name.Name == "WithContext" {
+				evs, ok, why := g.loggerWithContext(fd)
+				g.emitSkel("logger_WithContext_skel", evs, ok, why)
+				seen[fd.Name.Name] = true
+			}
+		}
 		for _, fd := range g.funcDecls() {
 			if fd.Recv != nil {
 				continue
 			}
 			switch fd.Name.Name {
-			case "WithContext":
-				evs, ok, why := g.loggerWithContext(fd)
-				g.emitSkel("logger_WithContext_skel", evs, ok, why)
-				seen[fd.Name.Name] = true
 			case "AliasContext":
 				evs, ok, why := g.loggerAliasContext(fd)
 				g.emitSkel("logger_AliasContext_skel", evs, ok, why)
@@ -395,7 +465,7 @@ func wsMentions(n ast.Node, names ...string) bool {
 	ast.Inspect(n, func(x ast.Node) bool {
 		if se, ok := x.(*ast.SelectorExpr); ok {
 			for _, nm := range names {
-				if se.Sel.Name == nm {
+				if wsCanon(se.Sel.Name) == nm {
 					found = true
 				}
 			}
@@ -410,11 +480,99 @@ var wsInlined = map[string]bool{}
 
 var wsSensitive = []string{"mu", "conn", "writeErr", "writeFatal"}
 
+// Role-based names for the websocket write path: the write lock (the chan-typed field of Conn), the
+// sticky error (the error-typed field that follows its own sync.Mutex) and the function that latches
+// it (`if c.<err> == nil { c.<err> = .. }`) are found by type / shape; expression texts are then read
+// with those identifiers mapped to the canonical names mu / writeErr / writeErrMu / writeFatal, so
+// the matchers below do not depend on what a refactoring calls them.
+var wsCanonNames = map[string]string{}
+
+func wsCanon(name string) string {
+	if c, ok := wsCanonNames[name]; ok {
+		return c
+	}
+	return name
+}
+
 func exprStr(e ast.Expr) string {
 	if e == nil {
 		return ""
 	}
-	return types.ExprString(e)
+	s := types.ExprString(e)
+	for from, to := range wsCanonNames {
+		s = wsReplaceIdent(s, "c."+from, "c."+to)
+	}
+	return s
+}
+
+// replace occurrences of the dotted identifier `from` that are not part of a longer identifier
+func wsReplaceIdent(s, from, to string) string {
+	if from == to || !strings.Contains(s, from) {
+		return s
+	}
+	var b strings.Builder
+	for i := 0; i < len(s); {
+		if strings.HasPrefix(s[i:], from) {
+			j := i + len(from)
+			prevOK := i == 0 || !(s[i-1] == '_' || s[i-1] == '.' || (s[i-1] >= '0' && s[i-1] <= '9') || (s[i-1] >= 'a' && s[i-1] <= 'z') || (s[i-1] >= 'A' && s[i-1] <= 'Z'))
+			nextOK := j == len(s) || !(s[j] == '_' || (s[j] >= '0' && s[j] <= '9') || (s[j] >= 'a' && s[j] <= 'z') || (s[j] >= 'A' && s[j] <= 'Z'))
+			if prevOK && nextOK {
+				b.WriteString(to)
+				i = j
+				continue
+			}
+		}
+		b.WriteByte(s[i])
+		i++
+	}
+	return b.String()
+}
+
+func (g *gen) wsFindRoles() {
+	wsCanonNames = map[string]string{}
+	obj := g.p.Types.Scope().Lookup("Conn")
+	if obj == nil {
+		return
+	}
+	st, ok := obj.Type().Underlying().(*types.Struct)
+	if !ok {
+		return
+	}
+	errField := ""
+	for i := 0; i < st.NumFields(); i++ {
+		f := st.Field(i)
+		if _, isChan := f.Type().Underlying().(*types.Chan); isChan {
+			if _, taken := wsCanonNames[f.Name()]; !taken && f.Name() != "mu" {
+				wsCanonNames[f.Name()] = "mu"
+			}
+		}
+		if i > 0 && f.Type().String() == "error" && strings.HasSuffix(st.Field(i-1).Type().String(), "sync.Mutex") {
+			errField = f.Name()
+			if f.Name() != "writeErr" {
+				wsCanonNames[f.Name()] = "writeErr"
+			}
+			if st.Field(i-1).Name() != "writeErrMu" {
+				wsCanonNames[st.Field(i-1).Name()] = "writeErrMu"
+			}
+		}
+	}
+	if errField == "" {
+		return
+	}
+	// the latch: a Conn method containing `if c.<err> == nil { c.<err> = .. }`
+	for _, fd := range g.funcDecls() {
+		if recvName(fd) != "Conn" || fd.Name.Name == "writeFatal" {
+			continue
+		}
+		ast.Inspect(fd.Body, func(n ast.Node) bool {
+			if ifs, ok := n.(*ast.IfStmt); ok && types.ExprString(ifs.Cond) == "c."+errField+" == nil" && len(ifs.Body.List) == 1 {
+				if as, ok := ifs.Body.List[0].(*ast.AssignStmt); ok && len(as.Lhs) == 1 && types.ExprString(as.Lhs[0]) == "c."+errField {
+					wsCanonNames[fd.Name.Name] = "writeFatal"
+				}
+			}
+			return true
+		})
+	}
 }
 
 func isRecvMu(e ast.Expr) bool {
@@ -450,7 +608,7 @@ func (w *wsWalker) connHelper(e ast.Expr) (*ast.FuncDecl, *ast.CallExpr) {
 	if !ok || exprStr(sel.X) != "c" || ast.IsExported(sel.Sel.Name) {
 		return nil, nil
 	}
-	switch sel.Sel.Name {
+	switch wsCanon(sel.Sel.Name) {
 	case "write", "writeFatal", "prepWrite":
 		return nil, nil // entry points / known primitives, not helpers
 	}
@@ -566,7 +724,14 @@ func (w *wsWalker) stmts(list []ast.Stmt) {
 				w.bad = "select statement of unrecognised shape"
 			}
 		case *ast.DeferStmt:
+			isRelease := false
 			if fl, ok := s.Call.Fun.(*ast.FuncLit); ok && len(fl.Body.List) == 1 && isSendMu(fl.Body.List[0]) {
+				isRelease = true
+			} else if md, ce := w.connHelper(s.Call); md != nil && len(ce.Args) == 0 && len(md.Body.List) == 1 && isSendMu(md.Body.List[0]) {
+				isRelease = true // defer c.unlock(): a helper whose whole body is the send on the lock channel
+				w.inlined[md.Name.Name] = true
+			}
+			if isRelease {
 				acquired := false
 				for _, e := range w.evs {
 					if e.kind == "acquire" || e.kind == "acquire_timeout" {
@@ -645,6 +810,19 @@ func (w *wsWalker) stmts(list []ast.Stmt) {
 					w.ev("test_err", "writeErr")
 					continue
 				}
+				// if err := c.lockUntil(deadline); err != nil { return err }: a helper whose only effect on the
+				// shared state is the (deadline-bounded) acquire, returning an error iff it did not acquire
+				if md, _ := w.connHelper(as.Rhs[0]); md != nil && !w.isStickyRead(as.Rhs[0]) && len(as.Lhs) == 1 &&
+					cond == errName+" != nil" && w.isReturnOf(s.Body, errName) && w.depth < 2 {
+					sub := &wsWalker{g: w.g, depth: w.depth + 1, inlined: w.inlined}
+					sub.stmts(md.Body.List)
+					if sub.bad == "" && len(sub.deferred) == 0 && len(sub.evs) == 1 &&
+						(sub.evs[0].kind == "acquire_timeout" || sub.evs[0].kind == "acquire") {
+						w.evs = append(w.evs, sub.evs[0])
+						w.inlined[md.Name.Name] = true
+						continue
+					}
+				}
 				// if _, err := c.conn.Write(buf); err != nil { return c.writeFatal(err) }
 				if strings.HasPrefix(exprStr(as.Rhs[0]), "c.conn.Write(") && cond == errName+" != nil" {
 					if w.isReturnOf(s.Body, "c.writeFatal("+errName+")") {
@@ -717,6 +895,8 @@ func init() {
 			return
 		}
 		g.pf("(* synchronisation skeletons (gen_skel.go) *)\n")
+		g.wsFindRoles()
+		defer func() { wsCanonNames = map[string]string{} }()
 		seen := map[string]bool{}
 		var sites []skelEv
 		var handlerCalls []skelEv // (function that runs on the reading goroutine, write entry point it calls)
@@ -725,6 +905,9 @@ func init() {
 			full := fd.Name.Name
 			if rn != "" {
 				full = rn + "." + fd.Name.Name
+				if rn == "Conn" {
+					full = rn + "." + wsCanon(fd.Name.Name)
+				}
 			}
 			// every transport write call site
 			ast.Inspect(fd.Body, func(n ast.Node) bool {
@@ -920,6 +1103,7 @@ type txWalk struct {
 	g       *gen
 	n       txNames
 	inlined map[string]bool // unexported Protocol helpers whose accesses were inlined into a caller's skeleton
+	env     map[string]bool // bool parameters bound to a constant argument at the call site being inlined
 }
 
 func (w *txWalk) scope(body *ast.BlockStmt, depth int) []skelEv {
@@ -932,6 +1116,18 @@ func (w *txWalk) scope(body *ast.BlockStmt, depth int) []skelEv {
 		case *ast.FuncLit:
 			evs = append(evs, w.scope(x.Body, depth)...)
 			return false
+		case *ast.IfStmt:
+			// a branch on a bool parameter that is a constant at this call site: only the taken branch
+			if val, ok := w.constCond(x.Cond); ok && x.Init == nil {
+				if val {
+					evs = append(evs, w.scope(x.Body, depth)...)
+				} else if eb, ok := x.Else.(*ast.BlockStmt); ok {
+					evs = append(evs, w.scope(eb, depth)...)
+				} else if x.Else != nil {
+					evs = append(evs, w.scope(&ast.BlockStmt{List: []ast.Stmt{x.Else}}, depth)...)
+				}
+				return false
+			}
 		case *ast.DeferStmt:
 			if exprStr(x.Call.Fun) == w.n.lockSel+".Unlock" {
 				deferred = append([]skelEv{{"unlock", "table lock"}}, deferred...)
@@ -963,7 +1159,10 @@ func (w *txWalk) scope(body *ast.BlockStmt, depth int) []skelEv {
 								return true
 							})
 						}
+						saved := w.env
+						w.env = w.bindBools(md, x)
 						evs = append(evs, w.scope(md.Body, depth+1)...)
+						w.env = saved
 						w.inlined[sel.Sel.Name] = true
 					}
 				}
@@ -1004,6 +1203,160 @@ func (w *txWalk) scope(body *ast.BlockStmt, depth int) []skelEv {
 		return true
 	})
 	return append(evs, deferred...)
+}
+
+func (w *txWalk) constCond(c ast.Expr) (bool, bool) {
+	neg := false
+	if ue, ok := c.(*ast.UnaryExpr); ok && ue.Op == token.NOT {
+		neg, c = true, ue.X
+	}
+	if id, ok := c.(*ast.Ident); ok {
+		if v, ok := w.env[id.Name]; ok {
+			return v != neg, true
+		}
+	}
+	return false, false
+}
+
+// bool parameters of md that receive the constant true/false in call ce
+func (w *txWalk) bindBools(md *ast.FuncDecl, ce *ast.CallExpr) map[string]bool {
+	env := map[string]bool{}
+	i := 0
+	for _, p := range md.Type.Params.List {
+		for _, nm := range p.Names {
+			if i < len(ce.Args) && exprStr(p.Type) == "bool" {
+				switch exprStr(ce.Args[i]) {
+				case "true":
+					env[nm.Name] = true
+				case "false":
+					env[nm.Name] = false
+				}
+			}
+			i++
+		}
+	}
+	return env
+}
+
+// v.m(..) with m an unexported Protocol method that touches the table: its role by what it does there
+// (a store = registration, only deletes = roll-back), its accesses, its declaration and bindings
+func (w *txWalk) callRole(ce *ast.CallExpr) (role string, evs []skelEv, md *ast.FuncDecl, env map[string]bool) {
+	sel, ok := ce.Fun.(*ast.SelectorExpr)
+	if !ok || exprStr(sel.X) != "v" || ast.IsExported(sel.Sel.Name) {
+		return
+	}
+	md = w.g.methodDecl("Protocol", sel.Sel.Name)
+	if md == nil {
+		return "", nil, nil, nil
+	}
+	env = w.bindBools(md, ce)
+	saved := w.env
+	w.env = env
+	evs = w.scope(md.Body, 1)
+	w.env = saved
+	store, del, load := false, false, false
+	for _, e := range evs {
+		switch e.kind {
+		case "map_store", "map_replace":
+			store = true
+		case "map_delete":
+			del = true
+		case "map_load", "map_range":
+			load = true
+		}
+	}
+	switch {
+	case store:
+		role = "register"
+	case del && !load:
+		role = "unregister"
+	}
+	if role != "" {
+		w.inlined[sel.Sel.Name] = true
+	}
+	return
+}
+
+// WHICH packets a registration / roll-back method applies to: where (tid, name) come from, under which guard
+func (w *txWalk) kinds(md *ast.FuncDecl, env map[string]bool) (ordered []skelEv, kindsFn string) {
+	g := w.g
+	saved := w.env
+	w.env = env
+	defer func() { w.env = saved }()
+	var src []skelEv
+	okVar := ""
+	ast.Inspect(md.Body, func(n ast.Node) bool {
+		switch x := n.(type) {
+		case *ast.AssignStmt:
+			if len(x.Lhs) >= 2 && len(x.Rhs) == 1 {
+				if ce, ok := x.Rhs[0].(*ast.CallExpr); ok {
+					name := exprStr(ce.Fun)
+					// a plain function of this package with a type switch over the packet: the role
+					// "requestTransaction", whatever it is called
+					for _, fd := range g.funcDecls() {
+						if fd.Recv == nil && fd.Name.Name == name {
+							hasSwitch := false
+							ast.Inspect(fd.Body, func(m ast.Node) bool {
+								if _, ok := m.(*ast.TypeSwitchStmt); ok {
+									hasSwitch = true
+								}
+								return true
+							})
+							if hasSwitch {
+								kindsFn = name
+								name = "requestTransaction"
+							}
+						}
+					}
+					src = append(src, skelEv{"kinds_from", name})
+					if len(x.Lhs) == 3 {
+						okVar = exprStr(x.Lhs[2])
+					}
+				}
+			}
+		case *ast.IfStmt:
+			if _, isConst := w.constCond(x.Cond); isConst {
+				return true
+			}
+			if okVar != "" && exprStr(x.Cond) == "!"+okVar && len(x.Body.List) == 1 {
+				if _, isRet := x.Body.List[0].(*ast.ReturnStmt); isRet && kindsFn != "" {
+					// early return unless ok: the guard is what the kinds function assigns to its bool result
+					for _, fd := range g.funcDecls() {
+						if fd.Recv == nil && fd.Name.Name == kindsFn && fd.Type.Results != nil && len(fd.Type.Results.List) > 0 {
+							res := fd.Type.Results.List[len(fd.Type.Results.List)-1]
+							if len(res.Names) > 0 {
+								rn := res.Names[len(res.Names)-1].Name
+								ast.Inspect(fd.Body, func(m ast.Node) bool {
+									if as, ok := m.(*ast.AssignStmt); ok && len(as.Lhs) == 1 && exprStr(as.Lhs[0]) == rn && len(as.Rhs) == 1 {
+										src = append(src, skelEv{"guard", exprStr(as.Rhs[0])})
+									}
+									return true
+								})
+							}
+						}
+					}
+					return true
+				}
+			}
+			if len(w.scope(x.Body, 1)) > 0 {
+				src = append(src, skelEv{"guard", g.guardText(x.Cond)})
+			}
+		case *ast.TypeSwitchStmt:
+			src = append(src, skelEv{"kinds_from", "type switch in " + md.Name.Name})
+		}
+		return true
+	})
+	for _, e := range src {
+		if e.kind == "kinds_from" {
+			ordered = append(ordered, e)
+		}
+	}
+	for _, e := range src {
+		if e.kind != "kinds_from" {
+			ordered = append(ordered, e)
+		}
+	}
+	return
 }
 
 // the guard under which a function touches the table; a call to a one-line predicate of this package
@@ -1052,12 +1405,17 @@ func init() {
 		}
 		var others []skelEv // any other function touching the table
 		var pendingOthers []string // Protocol methods touching the table: reported unless inlined into a skeleton
+		plainFns := map[string]*ast.FuncDecl{}
+		kindsFn := "" // the function that yields (tid, name) of a packet (role: requestTransaction)
 		for _, fd := range g.funcDecls() {
 			if recvName(fd) != "Protocol" {
 				if fd.Body != nil && wsMentions(fd.Body, tw.n.tabField) {
 					others = append(others, skelEv{fd.Name.Name, "touches transactions"})
 				}
-				if fd.Name.Name == "requestTransaction" && fd.Recv == nil {
+				if fd.Recv == nil {
+					plainFns[fd.Name.Name] = fd
+				}
+				if false {
 					// the packet kinds that carry a transaction: the cases of the type switch
 					var kinds []skelEv
 					ast.Inspect(fd.Body, func(n ast.Node) bool {
@@ -1104,8 +1462,6 @@ func init() {
 					switch exprStr(ce.Fun) {
 					case "pkt.MarshalBinary":
 						evs = append(evs, skelEv{"marshal", "MarshalBinary"})
-					case "v.onPacketWriten":
-						evs = append(evs, skelEv{"register", "onPacketWriten"})
 					case "v.WriteMessage":
 						evs = append(evs, skelEv{"write", "WriteMessage"})
 					case "io.Copy", "v.w.Write", "v.w.WriteString", "v.w.ReadFrom", "v.w.WriteByte":
@@ -1114,11 +1470,36 @@ func init() {
 						}
 					case "v.w.Flush":
 						evs = append(evs, skelEv{"flush", "v.w"})
-					case "v.onPacketWriteFailed":
-						if inFail(ce) {
-							evs = append(evs, skelEv{"unregister_on_fail", "onPacketWriteFailed"})
-						} else {
-							evs = append(evs, skelEv{"unregister", "onPacketWriteFailed"})
+					default:
+						// registration / roll-back are recognised by ROLE: an unexported method that stores
+						// into the table, resp. only deletes from it (names and files do not matter)
+						switch role, cev, md, env := tw.callRole(ce); role {
+						case "register":
+							evs = append(evs, skelEv{"register", "onPacketWriten"})
+							if !seen["onPacketWriten"] {
+								g.emitSkel("rtmp_onPacketWriten_skel", cev, true, "")
+								kk, kf := tw.kinds(md, env)
+								g.emitSkel("rtmp_onPacketWriten_kinds", kk, true, "")
+								seen["onPacketWriten"] = true
+								if kf != "" {
+									kindsFn = kf
+								}
+							}
+						case "unregister":
+							if inFail(ce) {
+								evs = append(evs, skelEv{"unregister_on_fail", "onPacketWriteFailed"})
+							} else {
+								evs = append(evs, skelEv{"unregister", "onPacketWriteFailed"})
+							}
+							if !seen["onPacketWriteFailed"] {
+								g.emitSkel("rtmp_onPacketWriteFailed_skel", cev, true, "")
+								kk, kf := tw.kinds(md, env)
+								g.emitSkel("rtmp_onPacketWriteFailed_kinds", kk, true, "")
+								seen["onPacketWriteFailed"] = true
+								if kf != "" {
+									kindsFn = kf
+								}
+							}
 						}
 					}
 					return true
@@ -1144,10 +1525,10 @@ func init() {
 						evs = append(evs, skelEv{"chunk_write", "v.w"})
 					case f == "v.w.Flush":
 						evs = append(evs, skelEv{"flush", "v.w"})
-					case f == "v.onPacketWriten":
-						evs = append(evs, skelEv{"register", "onPacketWriten"})
-					case f == "v.onPacketWriteFailed":
-						evs = append(evs, skelEv{"unregister", "onPacketWriteFailed"})
+					case strings.HasPrefix(f, "v.") && f != "v.onMessageWriten" && f != "v.w.Flush":
+						if role, _, _, _ := tw.callRole(ce); role != "" {
+							evs = append(evs, skelEv{role, f})
+						}
 					case f == "v.onMessageWriten":
 						evs = append(evs, skelEv{"written_hook", "onMessageWriten"})
 					}
@@ -1158,41 +1539,6 @@ func init() {
 				}
 				g.emitSkel("rtmp_WriteMessage_skel", evs, true, "")
 				seen["WriteMessage"] = true
-			case "onPacketWriten", "onPacketWriteFailed":
-				g.emitSkel("rtmp_"+fd.Name.Name+"_skel", tw.scope(fd.Body, 0), true, "")
-				seen[fd.Name.Name] = true
-				// WHICH packets does it apply to: where do (tid, name) come from, and under which guard
-				var src []skelEv
-				ast.Inspect(fd.Body, func(n ast.Node) bool {
-					switch x := n.(type) {
-					case *ast.AssignStmt:
-						if len(x.Lhs) == 2 && len(x.Rhs) == 1 {
-							if ce, ok := x.Rhs[0].(*ast.CallExpr); ok {
-								src = append(src, skelEv{"kinds_from", exprStr(ce.Fun)})
-							}
-						}
-					case *ast.IfStmt:
-						if len(tw.scope(x.Body, 0)) > 0 {
-							src = append(src, skelEv{"guard", g.guardText(x.Cond)})
-						}
-					case *ast.TypeSwitchStmt:
-						src = append(src, skelEv{"kinds_from", "type switch in " + fd.Name.Name})
-					}
-					return true
-				})
-				// canonical order: where the packets come from, then the guard(s)
-				var ordered []skelEv
-				for _, e := range src {
-					if e.kind == "kinds_from" {
-						ordered = append(ordered, e)
-					}
-				}
-				for _, e := range src {
-					if e.kind != "kinds_from" {
-						ordered = append(ordered, e)
-					}
-				}
-				g.emitSkel("rtmp_"+fd.Name.Name+"_kinds", ordered, true, "")
 			case "parseAMFObject":
 				g.emitSkel("rtmp_parseAMFObject_tx_skel", tw.scope(fd.Body, 0), true, "")
 				seen[fd.Name.Name] = true
@@ -1201,6 +1547,22 @@ func init() {
 					pendingOthers = append(pendingOthers, fd.Name.Name)
 				}
 			}
+		}
+		if fd := plainFns[kindsFn]; fd != nil {
+			var kinds []skelEv
+			ast.Inspect(fd.Body, func(n ast.Node) bool {
+				if cc, ok := n.(*ast.CaseClause); ok {
+					for _, e := range cc.List {
+						kinds = append(kinds, skelEv{"case", strings.TrimPrefix(exprStr(e), "*")})
+					}
+					if cc.List == nil {
+						kinds = append(kinds, skelEv{"case", "default"})
+					}
+				}
+				return true
+			})
+			g.emitSkel("rtmp_requestTransaction_kinds", kinds, true, "")
+			seen["requestTransaction"] = true
 		}
 		for n, nm := range map[string]string{"WritePacket": "rtmp_WritePacket_skel", "onPacketWriten": "rtmp_onPacketWriten_skel",
 			"onPacketWriteFailed": "rtmp_onPacketWriteFailed_skel", "parseAMFObject": "rtmp_parseAMFObject_tx_skel",
